@@ -17,7 +17,7 @@ gvars == <<vars, phase, sc>>
 Ids == DOMAIN E
 Ext(f, d) == [i \in Ids |-> IF i \in DOMAIN f THEN f[i] ELSE d]
 
-PairKinds == {"badsig", "disallowed", "missing", "wrongroom", "malformed"} \cup CreateFaults
+PairKinds == {"badsig", "disallowed", "missing", "wrongroom", "malformed", "statedrop"} \cup CreateFaults
 
 \* the create-rule faults applicable to event x
 CreateApp(x) == IF E[x].type # "create" THEN {}
@@ -85,12 +85,16 @@ PickState ==
 (***************************************************************************)
 IsOwnJoin(e) == E[e].type = "member" /\ E[e].sender = E[e].skey /\ E[e].membership = "join" /\ e >= 5
 
+\* the state list as sent: without the events dropped from it (they stay in the auth list)
+Sent(F, SL) == {x \in SL : F[x] # "statedrop"}
+
 PickSendJoin ==
     /\ IsOwnJoin(N) = TRUE
-    /\ \E j \in {N} : \E SL \in {StateBefore(j)} : \E AL \in {ChainOf(E, SL)} :
-       \E dis \in {{e \in AL \cup SL : CanDisallow(e)}} :
-       \E f \in FaultChoices(AL \cup SL, LAMBDA x : StateApp(x, SL, CitedBy(E, AL \cup SL \cup {j}), dis)) :
-          \E F \in {Ext(f, NoFault)} : \E EM \in {Mutated(F)} :
+    /\ \E j \in {N} : \E SL0 \in {StateBefore(j)} : \E AL \in {ChainOf(E, SL0)} :
+       \E dis \in {{e \in AL \cup SL0 : CanDisallow(e)}} :
+       \E f \in FaultChoices(AL \cup SL0, LAMBDA x : StateApp(x, SL0, CitedBy(E, AL \cup SL0 \cup {j}), dis)
+                                                      \cup (IF x \in AL \cap SL0 THEN {"statedrop"} ELSE {})) :
+          \E F \in {Ext(f, NoFault)} : \E EM \in {Mutated(F)} : \E SL \in {Sent(F, SL0)} :
           \E pre \in {CheckState(EM, F, [i \in Ids |-> "returns"], AL, SL)} :
              \E p \in ProvChoices(pre.askmax \cap Ids) :
                 \* the join event may also ask for auth events that were dropped: one common behaviour for those
